@@ -630,7 +630,8 @@ def case_class(shape, api, form, scope, res):
 
 # ------------------------------------------------------------------------------------ rejections
 REJECTIONS = ['invalid_name', 'invalid_name_newline', 'invalid_module_newline', 'invalid_name_slash', 'invalid_module', 'other_object_same_name', 'allow_unknown',
-              'deny_unknown', 'both_lists', 'allowlist_not_list', 'name_with_invalid_module_part']
+              'deny_unknown', 'both_lists', 'allowlist_not_list', 'name_with_invalid_module_part', 'invalid_name_empty',
+              'same_object_again_allow_unknown', 'same_object_again_deny_unknown', 'same_object_again_both_lists']
 
 
 class EqCallable:
@@ -679,6 +680,18 @@ def case_reject(kind, api, what, res):
     kw['module'] = 'c13.mod\n'
   elif kind == 'invalid_name_slash':
     name = 'a/b'
+  elif kind == 'invalid_name_empty':
+    name = ''                      # an explicitly empty name (the object's own name would have been fine)
+  elif kind.startswith('same_object_again'):
+    # a second registration call for the very same object and full name, this time with lists that are invalid
+    obj, name = first, nm
+    kw['module'] = 'c13'
+    if kind.endswith('allow_unknown'):
+      kw['allowlist'] = ['nope']
+    elif kind.endswith('deny_unknown'):
+      kw['denylist'] = ['nope']
+    else:
+      kw['allowlist'], kw['denylist'] = ['a'], ['x']
   elif kind == 'invalid_module':
     kw['module'] = 'bad..mod'
   elif kind == 'name_with_invalid_module_part':
